@@ -1267,6 +1267,12 @@ class Exec:
                 cands = [(c, m) for c in s.p.classes for m in s.p.classes[c].methods.get(nm, [])] + ([(None, s.p.funcs[nm])] if nm in s.p.funcs else [])
                 if isinstance(f, ast.Attribute) and isinstance(f.value, ast.Name) and f.value.id in s.p.classes:
                     cands = [(c, m) for c, m in cands if c in s.p.mro(f.value.id)]
+                elif isinstance(f, ast.Attribute) and isinstance(f.value, ast.Call) and isinstance(f.value.func, ast.Name) and f.value.func.id == 'super' and (owner or (s.owner_stack[-1] if s.owner_stack else None)):
+                    own_ = owner or s.owner_stack[-1]      # super().m(...): only the classes above the current one
+                    cands = [(c, m) for c, m in cands if c in s.p.mro(own_) and c != own_]
+                elif isinstance(f, ast.Attribute) and isinstance(f.value, ast.Name) and f.value.id == 'self' and (owner or (s.owner_stack[-1] if s.owner_stack else None)):
+                    own_ = owner or s.owner_stack[-1]      # self.m(...): the class itself, what it inherits, and overriding subclasses
+                    cands = [(c, m) for c, m in cands if c is not None and (c in s.p.mro(own_) or own_ in s.p.mro(c))]
                 elif isinstance(f, ast.Name): cands = [(c, m) for c, m in cands if c is None] if nm in s.p.funcs else cands
                 for c, m in cands:
                     q = s.qual(c, m.name)
@@ -1515,6 +1521,22 @@ def generate(ex, owner, name, kind=None):
     ex.cur = q; ex.obls = []; ex.depth = 0
     c = ex.spec.contracts.get(q) or Contract()
     tv = dict(p.tv, Self=owner)
+    # ---- does the contract still bind to this body? anchors that match nothing mean the proof script no longer describes the code: undecided, not a failure
+    stmts_ = {ast.unparse(x) for x in ast.walk(fdef) if isinstance(x, ast.stmt)}
+    for anchor in c.after_stmt:
+        if anchor not in stmts_: raise SpecBinding(f'after_stmt anchor {anchor[:80]!r} matches no statement of {q}')
+    assigned_ = {ast.unparse(t_) for x in ast.walk(fdef) if isinstance(x, ast.Assign) for t_ in x.targets}
+    for anchor in c.after_assign:
+        if anchor not in assigned_: raise SpecBinding(f'after_assign anchor {anchor!r} matches no assignment of {q}')
+    nloops_ = sum(1 for x in ast.walk(fdef) if isinstance(x, (ast.For, ast.While)))
+    for n_ in c.invariants:
+        if not (0 <= n_ < nloops_): raise SpecBinding(f'invariant({n_}, ...) but {q} has {nloops_} loops')
+    for n_ in c.asserts:
+        if not (0 <= n_ < len(fdef.body)): raise SpecBinding(f'ghost_assert({n_}, ...) but {q} has {len(fdef.body)} top-level statements')
+    called_ = {(x.func.attr if isinstance(x.func, ast.Attribute) else getattr(x.func, 'id', None)) for x in ast.walk(fdef) if isinstance(x, ast.Call)}
+    called_ |= {x.attr for x in ast.walk(fdef) if isinstance(x, ast.Attribute)}      # property reads are calls of the getter
+    for anchor in list(c.before_call) + list(getattr(c, 'after_call', {}) or {}):
+        if anchor.split('.')[-1] not in called_: raise SpecBinding(f'call anchor {anchor!r}: {q} never calls it')
     st = State({}, Heap(alloc=Int('alloc0')), [])
     decs = [ast.unparse(d) for d in fdef.decorator_list]
     params = fdef.args.args + fdef.args.kwonlyargs
